@@ -102,6 +102,49 @@ func Decode(exact bool, b []byte, sp gen.StoreSpec, m mapping.IndexMapping) (Ske
 	return Sketch{P: p}, err
 }
 
+// DecodeWith is Decode with a caller-chosen store provider.
+func DecodeWith(exact bool, b []byte, provider store.Provider, m mapping.IndexMapping) (Sketch, error) {
+	if exact {
+		e, err := ddsketch.DecodeDDSketchWithExactSummaryStatistics(b, provider, m)
+		if e == nil {
+			return Sketch{Exact: true}, err
+		}
+		return Sketch{Exact: true, E: e, P: e.DDSketch}, err
+	}
+	p, err := ddsketch.DecodeDDSketch(b, provider, m)
+	return Sketch{P: p}, err
+}
+
+// Recycler is a store provider that hands out the stores it made before again (after they were cleared), as the
+// documentation of DecodeDDSketch suggests for callers that decode often.
+type Recycler struct {
+	Spec gen.StoreSpec
+	made []store.Store
+	next int
+}
+
+func (rc *Recycler) Provider() store.Provider {
+	return func() store.Store {
+		if rc.next < len(rc.made) {
+			s := rc.made[rc.next]
+			rc.next++
+			return s
+		}
+		s := rc.Spec.New()
+		rc.made = append(rc.made, s)
+		rc.next++
+		return s
+	}
+}
+
+// Recycle clears every store handed out so far and starts handing them out again.
+func (rc *Recycler) Recycle() {
+	for _, s := range rc.made {
+		s.Clear()
+	}
+	rc.next = 0
+}
+
 // ---------- observation snapshot ----------
 
 var ObsGrid = []float64{0, 0.001, 0.01, 0.05, 0.1, 0.25, 0.3333333333333333, 0.5, 0.6666666666666666, 0.75, 0.9, 0.95, 0.99, 0.999, 1}
